@@ -1,1 +1,102 @@
-// harnesses for this module
+// Harnesses over src/metadata/cuesheet.rs (child module of `metadata::cuesheet`)
+use super::*;
+use crate::verif_env::*;
+
+// ===========================================================================
+// C11: cue sheet track structures survive write -> read
+// ===========================================================================
+
+// @harness prop=C11 tier=quick expect=pass timeout=600
+// @units metadata::cuesheet::LeadOutNonCDDA::to_writer metadata::cuesheet::LeadOutNonCDDA::from_reader metadata::cuesheet::LeadOutCDDA::to_writer metadata::cuesheet::LeadOutCDDA::from_reader metadata::cuesheet::ISRC
+// @bound both lead-out track kinds: any 64-bit offset (CD-DA: any multiple of 588), both flag bits, no ISRC
+// @oracle reads back equal (offset, flags in the right order, ISRC); 36 bytes written
+#[kani::proof]
+#[kani::unwind(16)]
+fn c11_leadout_roundtrip() {
+    let non_audio: bool = kani::any();
+    let pre_emphasis: bool = kani::any();
+    let offset: u64 = kani::any();
+    {
+        let t = LeadOutNonCDDA {
+            offset,
+            number: LeadOut,
+            isrc: ISRC::None,
+            non_audio,
+            pre_emphasis,
+            index_points: (),
+        };
+        let mut q = TokFifo::<48>::new();
+        let w = q.build(&t);
+        assert!(w.is_ok() && !q.failed);
+        std::mem::forget(w);
+        assert!(q.wpos == 36 * 8);
+        let back: Result<LeadOutNonCDDA, Error> = q.parse();
+        assert!(back.is_ok());
+        let back = back.unwrap();
+        assert!(q.drained());
+        assert!(back.offset == offset && back.non_audio == non_audio && back.pre_emphasis == pre_emphasis);
+        assert!(matches!(back.isrc, ISRC::None));
+    }
+    {
+        let sectors: u64 = kani::any();
+        kani::assume(sectors <= u64::MAX / 588);
+        let t = LeadOutCDDA {
+            offset: CDDAOffset { offset: sectors * 588 },
+            number: LeadOut,
+            isrc: ISRC::None,
+            non_audio,
+            pre_emphasis,
+            index_points: (),
+        };
+        let mut q = TokFifo::<48>::new();
+        let w = q.build(&t);
+        assert!(w.is_ok() && !q.failed);
+        std::mem::forget(w);
+        assert!(q.wpos == 36 * 8);
+        let back: Result<LeadOutCDDA, Error> = q.parse();
+        assert!(back.is_ok());
+        let back = back.unwrap();
+        assert!(q.drained());
+        assert!(back.offset.offset == sectors * 588 && back.non_audio == non_audio && back.pre_emphasis == pre_emphasis);
+    }
+}
+
+// @harness prop=C11 tier=quick expect=pass timeout=600
+// @units metadata::cuesheet::Index<u64>::to_writer metadata::cuesheet::Index<u64>::from_reader metadata::cuesheet::Index<CDDAOffset>
+// @bound any index point (64-bit offset, 8-bit number), both offset kinds
+// @oracle reads back equal; 12 bytes written
+#[kani::proof]
+#[kani::unwind(16)]
+fn c11_index_roundtrip() {
+    let i = Index::<u64> { offset: kani::any(), number: kani::any() };
+    let mut q = TokFifo::<16>::new();
+    let w = q.build(&i);
+    assert!(w.is_ok() && !q.failed && q.wpos == 12 * 8);
+    std::mem::forget(w);
+    let back: Result<Index<u64>, Error> = q.parse();
+    assert!(matches!(&back, Ok(b) if b.offset == i.offset && b.number == i.number));
+    assert!(q.drained());
+    std::mem::forget(back);
+}
+
+// ===========================================================================
+// C12: index/track ordering predicates are total
+// ===========================================================================
+
+// @harness prop=C12 tier=quick expect=pass timeout=300
+// @units metadata::cuesheet::Index::is_next metadata::cuesheet::Index::valid_first metadata::contiguous::Adjacent(u64, NonZero<u8>)
+// @bound every pair of index points (64-bit offsets, 8-bit numbers incl. 255), every pair of track numbers
+// @oracle no panic (u8 overflow of previous.number + 1); is_next <=> offset greater and number == previous + 1
+#[kani::proof]
+fn c12_index_is_next_total() {
+    let a = Index::<u64> { offset: kani::any(), number: kani::any() };
+    let b = Index::<u64> { offset: kani::any(), number: kani::any() };
+    let n = b.is_next(&a);
+    assert!(n == (b.offset > a.offset && u16::from(b.number) == u16::from(a.number) + 1));
+    let _ = a.valid_first();
+    let x: u8 = kani::any();
+    let y: u8 = kani::any();
+    kani::assume(x != 0 && y != 0);
+    let (x, y) = (NonZero::new(x).unwrap(), NonZero::new(y).unwrap());
+    assert!(y.is_next(&x) == (u16::from(y.get()) == u16::from(x.get()) + 1));
+}
